@@ -33,6 +33,12 @@ Theorem c06_size_is_output_length : forall toks out,
 Proof. exact enc_spec_length_eq_size. Qed.
 Print Assumptions c06_size_is_output_length.
 
+(* the same for the implemented encoder, inside the range it can address *)
+Theorem c06_impl_output_length : forall toks out,
+  Forall wf_token toks -> spec_size toks < 2 ^ 32 -> enc_impl toks = Some out -> Nlen out = spec_size toks.
+Proof. exact enc_impl_length_eq_size. Qed.
+Print Assumptions c06_impl_output_length.
+
 Theorem c06_heads_size : forall k toks earlier,
   Forall wf_token toks -> Nlen (spec_heads k earlier toks) = 32 * Nlen toks.
 Proof. exact spec_heads_length. Qed.
@@ -91,3 +97,4 @@ Check c06_encode_exact : forall toks, Forall wf_token toks -> spec_size toks < 2
 Check c06_reject_iff : forall toks, enc_spec toks = None <-> exists v, In (TUint v) toks /\ 2 ^ 256 <= v.
 Check c06_struct_exact : forall k toks, Forall wf_token toks -> spec_size toks < 2 ^ 32 -> enc_struct k toks = enc_struct_spec k toks.
 Check c06_size_is_output_length : forall toks out, Forall wf_token toks -> enc_spec toks = Some out -> Nlen out = spec_size toks.
+Check c06_impl_output_length : forall toks out, Forall wf_token toks -> spec_size toks < 2 ^ 32 -> enc_impl toks = Some out -> Nlen out = spec_size toks.
